@@ -81,7 +81,6 @@ def quotedStringRs : Nat → Str → Option Str
         if tl.isEmpty then some (pre ++ e)              -- `cut + 1 >= txt.len()`
         else (quotedStringRs fuel tl).map (fun r => pre ++ e ++ r)
 
-mutual
 /-- `write_term` -/
 def writeTerm : Term → Str
   | .iri s => '<' :: s ++ ['>']
@@ -92,7 +91,6 @@ def writeTerm : Term → Str
   | .lang lex tag => '"' :: quotedString lex ++ '"' :: '@' :: tag
   | .triple s p o => '<' :: '<' :: (writeTerm s ++ ' ' :: writeTerm p ++ ' ' :: writeTerm o) ++ ['>', '>']
   | .var v => '?' :: v
-end
 
 /-- `write_triple` -/
 def writeTriple (s p o : Term) : Str := writeTerm s ++ ' ' :: writeTerm p ++ ' ' :: writeTerm o
@@ -240,8 +238,13 @@ def readLabel : Str → Option (Str × Str)
       some (c :: body, run.drop body.length ++ s.dropWhile isLabelCh)
     else none
 
-def isAlpha (c : Char) : Bool := ('a' ≤ c && c ≤ 'z') || ('A' ≤ c && c ≤ 'Z')
-def isAlnum (c : Char) : Bool := isAlpha c || ('0' ≤ c && c ≤ '9')
+def alphaR : List (Nat × Nat) := [(0x41, 0x5A), (0x61, 0x7A)]
+def digitR : List (Nat × Nat) := [(0x30, 0x39)]
+def alnumR : List (Nat × Nat) := digitR ++ alphaR
+/-- `[a-zA-Z]` -/
+def isAlpha (c : Char) : Bool := Re.inCls alphaR c.toNat
+/-- `[a-zA-Z0-9]` -/
+def isAlnum (c : Char) : Bool := Re.inCls alnumR c.toNat
 def isTagCh (c : Char) : Bool := isAlnum c || c = '-'
 
 /-- split at every `-` -/
@@ -410,9 +413,6 @@ the toolkit's validators (generated regexes) -/
 namespace G
 open Re
 
-def alphaR : List (Nat × Nat) := [(0x41, 0x5A), (0x61, 0x7A)]
-def digitR : List (Nat × Nat) := [(0x30, 0x39)]
-def alnumR : List (Nat × Nat) := digitR ++ alphaR
 def alpha : Re := .cls alphaR
 def digit : Re := .cls digitR
 def alnum : Re := .cls alnumR
